@@ -264,6 +264,15 @@ Proof.
   destruct (cfind cn id) as [nd|] eqn:E; [|congruence]. destruct (proj1 (kl_agree _ _ _ _ _ _ L) _ _ E) as [p Hp]. eauto.
 Qed.
 
+(** `drop_edge` does not touch the allocator *)
+Lemma release_all_al cs : forall s s' lk, release_all s cs = Some (s', lk) -> i_al s' = i_al s.
+Proof.
+  induction cs as [|x cs IH]; intros s s' lk E; cbn [release_all] in E; [inversion E; reflexivity|].
+  destruct (release1 s x) as [[sa lka]|] eqn:E1; [|discriminate].
+  destruct (release_all sa cs) as [[sb lkb]|] eqn:E2; [|discriminate]. inversion E; subst.
+  rewrite (IH _ _ _ E2). destruct (release1_spec _ _ _ _ E1) as (j & q & rc & _ & _ & -> & _). reflexivity.
+Qed.
+
 Section Total.
 Variable k : kind.
 Variable terms : list (N * N).
@@ -309,6 +318,157 @@ Proof.
       cbn [istep] in E. destruct (internal a); [|discriminate].
       destruct (Alloc.step c good (i_al (k_i s)) a) as [[al' ob]|]; [|discriminate]. inversion E; subst. eauto. }
   destruct Hfin as (s' & r & Hf). exists s', r. split; [exact Hf|]. unfold Core.kstep. rewrite Ho, Hr, Hf. reflexivity.
+Qed.
+
+(** (2) what the ALLOCATOR needs: the thread of an allocation (`get_or_insert` of a node that is not in
+    the table) exists; the collector thread of a step that frees a slot exists; an allocator-internal
+    action is internal and enabled *)
+Definition kalloc_ok (c : cfg) (s : kst) (a : kact) : Prop :=
+  match a with
+  | KGoi tid lvl ch => find_shape (k_cn s) lvl ch = None -> tid < nthreads s
+  | KGc t id => (exists nd, cfind (k_cn s) id = Some nd /\ crc nd = 0%N) -> t < nthreads s
+  | KInternal a => internal a = true /\ Alloc.step c good (i_al (k_i s)) a <> None
+  | _ => True
+  end.
+
+Lemma pg_retain c i cn tok hd tid e : KInv c (mkK i cn tok hd) -> kops (mkK i cn tok hd) (KRetain tid e) <> None ->
+  exists s' r rs, kstep c (mkK i cn tok hd) (KRetain tid e) = Some (s', r, rs).
+Proof.
+  intros (HI & HC & HL) Ho. unfold KLink in HL. cbn [k_i k_cn k_tok k_hd] in HL.
+  unfold Core.kstep. cbn [Core.kops k_cn k_hd k_tok k_i] in *. destruct (eref e) as [x|id] eqn:Ee.
+  - destruct (cref_ok_b terms cn (RT x)); [|congruence]. cbn [irun kfin]. rewrite Ee. eauto.
+  - destruct (can_borrow_b nl (kproj (mkK i cn tok hd)) e); [|congruence].
+    destruct (hfind id hd) as [ht|] eqn:Hht; [|congruence].
+    destruct (hd_stored _ _ _ _ _ _ HL Hht) as (A & B & p & rc & Hn).
+    destruct (IndexStoreEquiv.fresh_h_spec 0 (i_hs i)) as [_ Hfr]. unfold kh1. cbn [k_i irun istep].
+    rewrite A, Hfr, Hn. cbn [kfin]. rewrite Ee. eauto.
+Qed.
+
+Lemma pg_release c i cn tok hd tid e : KInv c (mkK i cn tok hd) -> kops (mkK i cn tok hd) (KRelease tid e) <> None ->
+  exists s' r rs, kstep c (mkK i cn tok hd) (KRelease tid e) = Some (s', r, rs).
+Proof.
+  intros (HI & HC & HL) Ho. unfold KLink in HL. cbn [k_i k_cn k_tok k_hd] in HL.
+  unfold Core.kstep. cbn [Core.kops k_cn k_hd k_tok k_i] in *. destruct (eref e) as [x|id] eqn:Ee.
+  - destruct (cref_ok_b terms cn (RT x)); [|congruence]. cbn [irun kfin]. rewrite Ee. eauto.
+  - destruct (take_tok3 (tid, e) tok) as [[h tok']|] eqn:HT; [|congruence].
+    assert (HT2 : take_toks3 tid [e] tok = Some ([h], tok')) by (cbn [take_toks3]; rewrite Ee, HT; reflexivity).
+    pose proof HI as (_ & _ & HR & HO).
+    destruct (link_release _ _ _ _ _ _ _ _ HR HO HL HT2) as (i1 & E1 & _ & _ & _ & _ & _ & _ & Hown & _).
+    pose proof (irun_releases c [] [h] i i1 E1 Hown) as Hrun. cbn [map app irun] in Hrun.
+    cbn [k_i irun]. rewrite Hrun. cbn [kfin k_tok]. rewrite Ee, HT. eauto.
+Qed.
+
+Lemma pg_move c i cn tok hd tid tid' e : kops (mkK i cn tok hd) (KMove tid tid' e) <> None ->
+  exists s' r rs, kstep c (mkK i cn tok hd) (KMove tid tid' e) = Some (s', r, rs).
+Proof.
+  intros Ho. unfold Core.kstep. cbn [Core.kops k_cn k_hd k_tok k_i] in *. destruct (eref e) as [x|id] eqn:Ee.
+  - destruct (cref_ok_b terms cn (RT x)); [|congruence]. cbn [irun kfin]. rewrite Ee. eauto.
+  - destruct (take_tok3 (tid, e) tok) as [[h tok']|] eqn:HT; [|congruence]. cbn [irun kfin k_tok]. rewrite Ee, HT. eauto.
+Qed.
+
+Lemma pg_not c i cn tok hd tid e : kops (mkK i cn tok hd) (KNot tid e) <> None ->
+  exists s' r rs, kstep c (mkK i cn tok hd) (KNot tid e) = Some (s', r, rs).
+Proof.
+  intros Ho. unfold Core.kstep. cbn [Core.kops k_cn k_hd k_tok k_i] in *. destruct (is_bcdd k); [|congruence].
+  destruct (eref e) as [x|id] eqn:Ee.
+  - destruct (cref_ok_b terms cn (RT x)); [|congruence]. cbn [irun kfin]. rewrite Ee. eauto.
+  - destruct (take_tok3 (tid, e) tok) as [[h tok']|] eqn:HT; [|congruence]. cbn [irun kfin k_tok]. rewrite Ee, HT. eauto.
+Qed.
+
+Lemma pg_goi c i cn tok hd tid lvl ch : KInv c (mkK i cn tok hd) -> kops (mkK i cn tok hd) (KGoi tid lvl ch) <> None ->
+  kalloc_ok c (mkK i cn tok hd) (KGoi tid lvl ch) ->
+  exists s' r rs, kstep c (mkK i cn tok hd) (KGoi tid lvl ch) = Some (s', r, rs).
+Proof.
+  intros (HI & HC & HL) Ho Hal. unfold KLink in HL. cbn [k_i k_cn k_tok k_hd] in HL.
+  unfold kalloc_ok, nthreads in Hal. unfold Core.kstep. cbn [Core.kops k_cn k_hd k_tok k_i] in *.
+  destruct (node_pre_b k terms nl cn lvl ch); [|congruence].
+  destruct (take_toks3 tid ch tok) as [[hts tok1]|] eqn:HT; [|congruence].
+  pose proof HI as (HA & _ & HR & HO).
+  destruct (IndexStoreEquiv.fresh_h_spec 0 (i_hs i)) as [_ Hfr1].
+  destruct (IndexStoreEquiv.fresh_h_spec (fresh_h 0 (i_hs i)) (i_hs i)) as [Hne12 Hfr2].
+  unfold kh2, kh1 in *. cbn [k_i] in *.
+  destruct (find_shape cn lvl ch) as [id|] eqn:Hfs.
+  - destruct (hfind id hd) as [ht|] eqn:Hht; [|congruence].
+    destruct (link_release _ _ _ _ _ _ _ _ HR HO HL HT) as (i1 & E1 & Ea & HR1 & Eh & Eo & Ed & L1 & Hown & Hnd & Hbnd).
+    rewrite (irun_releases c [IRetain ht (fresh_h 0 (i_hs i))] hts i i1 E1 Hown).
+    destruct (hd_stored _ _ _ _ _ _ L1 Hht) as (A & B & p & rc & Hn).
+    assert (Hfr : afind (fresh_h 0 (i_hs i)) (i_hs i1) = None).
+    { rewrite Eh, afind_rm_all; [exact Hfr1|]. intros Hin. apply (Hbnd _ Hin Hfr1). }
+    cbn [irun istep]. rewrite A, Hfr, Hn. cbn [kfin k_tok k_cn]. rewrite HT, Hfs. eauto.
+  - specialize (Hal eq_refl). cbn [irun istep].
+    destruct (toks_facts _ _ _ _ _ _ _ _ HL HT) as (Hnd2 & _ & Hown & Hbnd & _).
+    assert (G : negb (bound (i_hs i) (fresh_h 0 (i_hs i))) && negb (bound (i_hs i) (fresh_h (fresh_h 0 (i_hs i)) (i_hs i))) &&
+                negb (fresh_h 0 (i_hs i) =? fresh_h (fresh_h 0 (i_hs i)) (i_hs i))%nat && forallb (client_h i) hts && nodup_nat hts = true).
+    { unfold bound at 1 2. rewrite Hfr1, Hfr2. cbn [negb andb].
+      destruct (Nat.eqb_spec (fresh_h 0 (i_hs i)) (fresh_h (fresh_h 0 (i_hs i)) (i_hs i))) as [E|_]; [congruence|]. cbn [negb andb].
+      apply andb_true_intro. split.
+      - apply forallb_forall. intros h Hh. unfold client_h, bound. rewrite (Hown h Hh).
+        destruct (afind h (i_hs i)) eqn:E; [reflexivity | exfalso; apply (Hbnd h Hh E)].
+      - apply nodup_nat_complete. eapply nodup_app_l, nodup_app_r. exact Hnd2. }
+    rewrite G. destruct (alloc_enabled c (i_al i) tid HA Hal) as (al' & o & Hstep). rewrite Hstep.
+    destruct (alloc_obs _ _ _ _ _ Hstep) as (oid & pa & ->). destruct oid as [fr|].
+    + destruct (alloc_id_pos _ _ _ _ _ _ HA Hstep) as [_ Hnz]. destruct fr as [|frp]; [congruence|].
+      cbn [kfin k_tok k_cn]. rewrite HT, Hfs. eauto.
+    + destruct (link_release (mkI al' (i_nodes i) (i_hs i) (i_own i)) _ _ _ _ _ _ _ HR HO HL HT) as (i1 & E1 & _).
+      rewrite E1. cbn [kfin k_tok k_cn]. rewrite HT, Hfs. eauto.
+Qed.
+
+(** the store script of every action whose guard holds is accepted unless the allocator refuses *)
+Theorem kstep_progress c s a : KInv c s -> kops s a <> None -> kalloc_ok c s a ->
+  exists s' r rs, kstep c s a = Some (s', r, rs).
+Proof.
+  intros HK Ho Hal. destruct a.
+  - destruct s as [i cn tok hd]. apply pg_goi; assumption.
+  - destruct s as [i cn tok hd]. apply pg_retain; assumption.
+  - destruct s as [i cn tok hd]. apply pg_release; assumption.
+  - destruct s as [i cn tok hd]. apply pg_move; assumption.
+  - destruct s as [i cn tok hd]. apply pg_not; assumption.
+  - cbn [Core.kops] in Ho. destruct (cfind (k_cn s) id) as [nd|] eqn:Hc; [|congruence].
+    destruct (N.eqb_spec (crc nd) 0) as [Hz|Hz].
+    + destruct (kgc_progress k terms nl c s t id nd HK (Hal (ex_intro _ nd (conj Hc Hz))) Hc) as (s' & r & rs & E & _). eauto.
+    + (* kept: the thread is not needed *)
+      destruct HK as (HI & HC & HL). destruct s as [i cn tok hd]. unfold KLink in HL. cbn [k_i k_cn k_tok k_hd] in *.
+      destruct (hfind id hd) as [ht|] eqn:Hht; [|congruence].
+      destruct (kl_hd _ _ _ _ _ _ HL _ _ (hfind_In _ _ _ Hht)) as [Hf1 Hf2].
+      destruct (proj1 (kl_agree _ _ _ _ _ _ HL) _ _ Hc) as [p Hn].
+      unfold Core.kstep. cbn [Core.kops k_cn k_hd]. rewrite Hc, Hht. cbn [irun istep k_i].
+      unfold client_h, bound. rewrite Hf1, Hf2, Hn. cbn [andb negb].
+      destruct (N.eqb_spec (crc nd + 1) 1) as [E1|_]; [lia|]. cbn [kfin]. eauto.
+  - destruct Hal as [Hint Hst]. unfold Core.kstep. cbn [Core.kops irun istep]. rewrite Hint.
+    destruct (Alloc.step c good (i_al (k_i s)) a) as [[al' ob]|]; [|congruence]. cbn [kfin]. eauto.
+Qed.
+
+(** conversely a step that happens had the allocator's consent *)
+Lemma kstep_alloc_ok c s a s' r rs : KInv c s -> kstep c s a = Some (s', r, rs) -> kalloc_ok c s a.
+Proof.
+  intros (HI & HC & HL) H. destruct (kstep_parts _ _ _ _ _ _ _ _ _ H) as (ops & i' & Ho & Hr & _).
+  destruct a as [tid lvl ch|tid e|tid e|tid tid' e|tid e|t id|ia]; cbn [kalloc_ok]; auto; cbn [Core.kops] in Ho.
+  - intros Hfs. rewrite Hfs in Ho. destruct (node_pre_b k terms nl (k_cn s) lvl ch); [|discriminate].
+    destruct (take_toks3 tid ch (k_tok s)) as [[hts tok1]|]; [|discriminate]. inversion Ho; subst ops.
+    cbn [irun istep] in Hr. destruct (_ && _ && _ && _ && _); [|discriminate]. cbn [Alloc.step] in Hr. unfold nthreads.
+    destruct (nth_error (th (i_al (k_i s))) tid) as [l|] eqn:El; [|discriminate].
+    apply nth_error_Some. congruence.
+  - intros (nd & Hc & Hz). rewrite Hc in Ho. destruct (hfind id (k_hd s)) as [ht|] eqn:Hht; [|discriminate]. inversion Ho; subst ops.
+    unfold KLink in HL. destruct (kl_hd _ _ _ _ _ _ HL _ _ (hfind_In _ _ _ Hht)) as [Hf1 Hf2].
+    destruct (proj1 (kl_agree _ _ _ _ _ _ HL) _ _ Hc) as [p Hn]. rewrite Hz in Hn.
+    cbn [irun istep] in Hr. unfold client_h, bound in Hr. rewrite Hf1, Hf2, Hn in Hr. cbn [andb negb N.eqb] in Hr.
+    change (0 + 1 =? 1)%N with true in Hr. cbv iota in Hr.
+    destruct (release_all _ _) as [[s1 lk]|] eqn:Erel; [|discriminate]. cbn [Alloc.step] in Hr. unfold nthreads.
+    pose proof (release_all_al _ _ _ _ Erel) as Ea. cbn [i_al] in Ea.
+    rewrite Ea in Hr. destruct (nth_error (th (i_al (k_i s))) t) as [l|] eqn:El; [|discriminate].
+    apply nth_error_Some. congruence.
+  - inversion Ho; subst ops. cbn [irun istep] in Hr. destruct (internal ia); [|discriminate]. split; [reflexivity|].
+    destruct (Alloc.step c good (i_al (k_i s)) ia); [discriminate | discriminate].
+Qed.
+
+(** [kstep] is [None] IFF Conc's guard fails or the allocator refuses *)
+Theorem kstep_some_iff c s a : KInv c s ->
+  ((exists s' r rs, kstep c s a = Some (s', r, rs)) <-> kops s a <> None /\ kalloc_ok c s a).
+Proof.
+  intros HK. split.
+  - intros (s' & r & rs & H). split; [|eapply kstep_alloc_ok; eauto].
+    destruct (kstep_parts _ _ _ _ _ _ _ _ _ H) as (ops & i' & Ho & _). congruence.
+  - intros [Ho Hal]. apply kstep_progress; assumption.
 Qed.
 
 End Total.
